@@ -157,6 +157,17 @@ fn get_command_config(header: &ReportHeader) -> Result<Config, Error> {
 pub fn run_dedupe(op: DedupeOp, config: DedupeConfig, log: &dyn Log) -> Result<(), Error> {
     let input_error = |e: io::Error| format!("Input error: {e}");
     let mut dedupe_config = config;
+    // The paths in the report are absolute and canonical. The roots given on the command line
+    // must be brought to the same form, otherwise a relative one would isolate nothing.
+    if !dedupe_config.isolated_roots.is_empty() {
+        let current_dir = std::env::current_dir().map_err(input_error)?;
+        let current_dir = Arc::new(fclones::Path::from(current_dir));
+        dedupe_config.isolated_roots = dedupe_config
+            .isolated_roots
+            .iter()
+            .map(|p| current_dir.resolve(p).canonicalize())
+            .collect();
+    }
     let mut reader = open_report(stdin()).map_err(input_error)?;
     let header = reader.read_header().map_err(input_error)?;
     let prev_command_config = get_command_config(&header)?;
